@@ -212,6 +212,27 @@ class PathExec:
                 if st["left"] == N:
                     return C(0)
                 return V("oz" + ver)
+            # general form: the value with an old table pending, f(m, o), and the value without, f(m, 0): one expression over `oz`
+            eS, eN = byleft.get(S), byleft.get(N)
+            if eS is not None and eN is not None and not sx.find_unknown(eS) and not sx.find_unknown(eN):
+                def subst(e, frm, to):
+                    if e[0] == "var":
+                        return to if e[1].split("@")[0] == frm else e
+                    if e[0] == "const":
+                        return e
+                    return tuple(subst(x, frm, to) if isinstance(x, tuple) else x for x in e)
+                e0 = subst(eS, "o", C(0))
+                try:
+                    same = sx.prove_ge(e0, eN)[0] and sx.prove_ge(eN, e0)[0]
+                except Exception:
+                    same = False
+                if same:
+                    if st["left"] == S:
+                        return eS
+                    if st["left"] == N:
+                        return eN
+                    ver = "" if st["ver"] == 0 else "@%d" % st["ver"]
+                    return subst(eS, "o", V("oz" + ver))
         return None
 
     def mutates_tables(self, c):
@@ -387,6 +408,11 @@ def rule_s_grow(ctx):
     return R
 
 
+def _main_len_reads(ctx, b):
+    """blocks of b that read MAIN.len()"""
+    return [c.loc.bb for c in ctx.calls(b) if c.tname == HBT + "len" and ctx.role(b, c.arg_path(0)) == MAIN and not b.is_cleanup(c.loc.bb)]
+
+
 def _grow_body_check(ctx, R, b, loc, Rc):
     """the obligations of S-grow for one body that replaces MAIN at loc; returns the number of allocation sites checked"""
     n = 0
@@ -449,6 +475,21 @@ def _grow_body_check(ctx, R, b, loc, Rc):
                         break
                 if bad:
                     break
+            if not bad:
+                # the obligation is stated for the main table's length when the size is computed: nothing may add to the main table between
+                # there and the installation of the new table (e.g. finishing a pending move after sizing would make the new table too small)
+                from rules_protocol import between_blocks
+                pe2 = PathExec(ctx, b)
+                sl, _ = b.slice_back(a.loc, [size_op])
+                sizing_reads = [rd for rd in _main_len_reads(ctx, b) if any(l.bb == rd and l.i == len(b.stmts(rd)) for l in sl)]
+                for x in sorted(between_blocks(b, 0, loc.bb) | {0}):
+                    if b.term(x)["k"] != "call" or x == loc.bb or b.is_cleanup(x):
+                        continue
+                    cx = ctx.call_at(b, x)
+                    if pe2.mutates_tables(cx) and any(rd in b.dom().get(x, set()) for rd in sizing_reads) \
+                            and not (cx.name in ("core::mem::replace", "core::mem::swap") and x == loc.bb):
+                        bad = "the main table may change (%s at %s) after its length was read for sizing and before the new table is installed" % (cx.tname, cx.where())
+                        break
             R.inst(fn=b.path, site=a.where(), arg=shown, paths=len(paths), obligation="arg >= L + ceil(L/%d) and arg >= L + extra" % Rc, verdict="ok" if not bad else "VIOLATION")
             if bad:
                 R.viol(key, a.where(), "growth in %s: %s. With a tighter table hashbrown's with_capacity can be exact (e.g. 28 of 32 buckets), so moving the "
